@@ -643,7 +643,9 @@ def load_function(result=_AnyYAML, *args):     # type: ignore
             """
 
             if isinstance(source, Path):
-                with source.open('r') as f:
+                # as bytes: YAML files are UTF-8 or UTF-16, and PyYAML
+                # works out which, like it does for a binary stream
+                with source.open('rb') as f:
                     return cast(T, yaml.load(f, Loader=self.loader))
             else:
                 return cast(T, yaml.load(source, Loader=self.loader))
